@@ -290,6 +290,43 @@ func factsUnshare(repo string) {
 			return true
 		})
 	}
+	// every `started <- err` is immediately followed by `return`; fn() is called after close(started) only
+	sendsReturn, sends := true, 0
+	fnAfterClose := false
+	if fd, _ := findFunc(p, "Go", ""); fd != nil {
+		ast.Inspect(fd.Body, func(n ast.Node) bool {
+			bs, ok := n.(*ast.BlockStmt)
+			if !ok {
+				return true
+			}
+			closed := false
+			for i, st := range bs.List {
+				if ss, ok := st.(*ast.SendStmt); ok {
+					if id, ok := ss.Chan.(*ast.Ident); ok && id.Name == "started" {
+						sends++
+						if i+1 >= len(bs.List) {
+							sendsReturn = false
+						} else if _, ok := bs.List[i+1].(*ast.ReturnStmt); !ok {
+							sendsReturn = false
+						}
+					}
+				}
+				if es, ok := st.(*ast.ExprStmt); ok {
+					if ce, ok := es.X.(*ast.CallExpr); ok {
+						if id, ok := ce.Fun.(*ast.Ident); ok && id.Name == "close" && len(ce.Args) == 1 && exprString(p.fset, ce.Args[0]) == "started" {
+							closed = true
+						}
+					}
+				}
+				if is, ok := st.(*ast.IfStmt); ok && closed && exprString(p.fset, is.Cond) == "fn != nil" {
+					fnAfterClose = true
+				}
+			}
+			return true
+		})
+	}
+	emit("/-- in `unshare.Go` every `started <- err` is directly followed by `return`, and `fn` is called only after `close(started)` in the same block -/")
+	emit("def goFailureReturns : Bool := %s", boolLean(sendsReturn && sends >= 2 && fnAfterClose))
 	emit("/-- `runtime.LockOSThread()` is the first statement of the goroutine started by `unshare.Go` -/")
 	emit("def goLocksFirst : Bool := %s", boolLean(lockFirst))
 	emit("/-- every `runtime.UnlockOSThread()` in `unshare.Go` sits directly under `if isReversible` -/")
